@@ -77,7 +77,7 @@ def _call_clause(fn, env):
 def _clauses(ccls, prefix):
     out = []
     for name, fn in ccls.__dict__.items():
-        if callable(fn) and name.startswith(prefix) and not name.startswith("__") and not name.startswith("ensures_ghost"):
+        if callable(fn) and name.startswith(prefix) and not name.startswith("__") and not name.startswith("ensures_ghost") and not name.startswith("ensures_assumed"):
             out.append((name, fn))
     return out
 
